@@ -1173,6 +1173,9 @@ class UWG(object):
 
         if not self.epw_path:
             raise Exception('Cannot generate the UWG while epw_path is None.')
+        # Start from a pristine reference library: the BEMDef objects selected by an
+        # earlier generate() are mutated by simulate() and by the optional overrides.
+        self._refBEM, self._refSchedule = UWG.load_refDOE()
         if self.ref_bem_vector:
             self._customize_reference_data()
         self._read_epw()
@@ -1874,7 +1877,8 @@ class UWG(object):
                                     for r in range(3)])
                 print('Add custom bem for "{} {}".'.format(
                     bem.builtera, bem.bldtype))
-            self.refBEM[ti][ei][zi] = bem
+            # copy, so that simulating does not alter the caller's custom BEMDef
+            self.refBEM[ti][ei][zi] = copy.deepcopy(bem)
 
     @ staticmethod
     def load_refDOE(refDOE_path=REFDOE_PATH):
